@@ -159,7 +159,13 @@ HIST = Contract("C02", INIT, "process_iter", env=ENV, name="__init__.is_running-
                          "process_iter()/is_running()/cache_clear() calls happen in between"],
                 replay="c04:history", note="bounded: enumeration of process-table histories (PIDs 1..3, short histories)")
 BOUNDED_CONTRACTS = [HIST]
-BOUNDED = [bounded_sweep(HIST, "c04:history", quick=1200, thorough=30000)]
+CLK = Contract("C02", INIT, "Process.is_running", env=ENV, name="identity across a clock step (scripts of other calls)",
+               ensures=["same process: ==, hash and is_running() unchanged by a wall-clock step, whatever other psutil calls "
+                        "(create_time, boot_time, name, hash, str) were made before or after it; also for a start of 0 ticks"],
+               replay="c02:clockstep", note="bounded: scripts of up to two calls before and after the step")
+BOUNDED_CONTRACTS = list(globals().get("BOUNDED_CONTRACTS", [])) + [CLK]
+BOUNDED = [bounded_sweep(HIST, "c04:history", quick=1200, thorough=30000),
+           bounded_sweep(CLK, "c02:clockstep", quick=120, thorough=400)]
 NOT_COVERED.append("interleaved process_iter()/is_running() histories are covered by a bounded enumeration only")
 
 
@@ -199,3 +205,32 @@ REGISTRY.add(Contract(
     canaries=["self._gone"], replay=None,
     note="a signal sent to a zombie (kill() -> ESRCH while the PID is still listed) raises ZombieProcess and does not latch "
          "the object as gone: is_running() keeps answering True while the zombie is in the table"))
+
+
+# --- the epoch start time is a convenience value: asking for it never touches the identity -----------------------------------
+# ("equal, and hash alike, exactly when same PID and same process start ... not on create_time() calls, clock steps ...")
+
+def setup_front_ct(it, cfg):
+    o = make_process(it, gone=False, reused=False)
+    ident_ct = it.fresh("identity_start", "Real")           # whatever __init__ recorded, 0 ticks since boot included
+    it.assume(smt.Cmp(">=", ident_ct, R(0)))
+    ident = (o.attrs["_pid"], ident_ct) if cfg["ident"] == "known" else (o.attrs["_pid"], None)
+    o.attrs["_ident"] = ident
+    cached = it.fresh("cached_epoch_start", "Real")
+    o.attrs["_create_time"] = cached if cfg["cached"] else None
+    plat = it.fresh("platform_epoch_start", "Real")
+    o.attrs["_proc"].attrs["create_time"] = _EnvFunc("create_time", lambda it2, *a, **k: plat)
+    return {"args": {"self": o}, "spec": {"ident0": ident, "cached": cached, "plat": plat, "was_cached": cfg["cached"]},
+            "values": [ident_ct, cached, plat]}
+
+
+REGISTRY.add(Contract(
+    "C02", INIT, "Process.create_time", name="__init__.Process.create_time (front end)", setup=setup_front_ct, env=ENV,
+    configs=[{"ident": i, "cached": c} for i in ("known", "unknown") for c in (True, False)], inline=["pid"],
+    ensures=["result == (cached if was_cached else plat)", "self._create_time == result",
+             "self._ident[0] == ident0[0]",
+             "(self._ident[1] is None) == (ident0[1] is None)",
+             "implies(ident0[1] is not None, self._ident[1] == ident0[1])",      # a start of 0 ticks is an identity too
+             "not self._gone and not self._pid_reused"],
+    raises={"NoSuchProcess": None, "AccessDenied": None, "ZombieProcess": None}, canaries=["result == 5"], replay=None,
+    note="returns the cached / platform epoch start time and leaves the identity (pid, start since boot) as __init__ made it"))
